@@ -178,7 +178,7 @@ CHECKS["C18"] = dict(
     category="model_checking",
     design="DESIGN.md section 4, C18",
     technique="explicit enumeration of suspension schedules: real OS threads running the real AtomicBaseTime (hook H3 observer as step hook), each writer held after exactly k of its atomic/lock steps, observer optionally paused mid-operation while another writer completes, then run alone; plus the loom harnesses' per-snapshot lock/load counters",
-    text="About 25 000 scenarios: start state (1 or 2 prior updates, writer lock poisoned or not) x observer in {snapshot, snapshot twice, try_update(newer), try_update(older), sequence} paused after each of its own steps (or not started) x {no / one writer completing a whole update meanwhile} x a writer in {update(newer), update(older), try_update(newer)} suspended after each of its steps 0..11 (before lock, holding the lock before/between/after each load and store, finished), or two writers at every pair of steps (including one parked in lock() behind the other); then the observer runs alone. It must return within 64 of its own steps, must never be found inside lock() behind a suspended writer, snapshot must perform no lock operation and only as many loads as completed writes justify, try_update exactly one try_lock and false unless it acquired the lock. The loom harnesses of C13 additionally assert 0 lock operations and a bounded number of loads per snapshot under real interleavings.",
+    text="About 25 000 scenarios: start state (1 or 2 prior updates, writer lock poisoned or not) x observer in {snapshot, snapshot twice, try_update(newer), try_update(older), sequence} paused after each of its own steps (or not started) x {no / one writer completing a whole update meanwhile} x a writer in {update(newer), update(older), try_update(newer)} suspended after each of its steps 0..11 (before lock, holding the lock before/between/after each load and store, finished), or two writers at every pair of steps (including one parked in lock() behind the other); then the observer runs alone. It must return within 64 of its own steps, must never be found inside lock() behind a suspended writer, snapshot must perform no lock operation and only as many loads as completed writes justify, try_update never a blocking lock behind a holder, false whenever a suspended writer holds the lock. The loom harnesses of C13 additionally assert 0 lock operations and a bounded number of loads per snapshot under real interleavings.",
     note="Step points are the stand-in operations of hook H3; lock hand-off is decided by the controller (virtual parking), never by an OS race, so every scenario is deterministic. More than two suspended writers are not enumerated.",
 )
 
